@@ -276,3 +276,57 @@ package rtpconn
 //@   requires map-wf: !held(track.packetmap.mu) && packetmap.wf(&track.packetmap) && packetmap.contiguous(&track.packetmap)
 //@   modifies *
 //@   invariant loop 1 range: -1 <= rangeindex && rangeindex < old(len(p.Nacks))
+//@
+//@ -- ------------------------------------------------------------------ signalling (C11, C15, C12)
+//@ -- A client that is not currently a member of a group holds no permissions.
+//@ spec nonmember(c *webClient) bool = c.group == nil ==> len(c.permissions) == 0
+//@ spec perm(c *webClient, p string) bool = call("slices.Contains[[]string string]", c.permissions, p)
+//@
+//@ func (*webClient).Id
+//@   safe
+//@   props C11 C12
+//@   requires nonnil: c != nil
+//@   modifies nothing
+//@   ensures spec: result == c.id
+//@ func (*webClient).Username
+//@   safe
+//@   props C11 C12
+//@   requires nonnil: c != nil
+//@   modifies nothing
+//@   ensures spec: result == c.username
+//@ func (*webClient).Permissions
+//@   safe
+//@   props C11 C12
+//@   requires nonnil: c != nil
+//@   modifies nothing
+//@   ensures spec: same(result, c.permissions)
+//@ func (*webClient).Group
+//@   safe
+//@   props C11 C12
+//@   requires nonnil: c != nil
+//@   modifies nothing
+//@   ensures spec: same(result, c.group)
+//@ func (*webClient).Init
+//@   safe
+//@   props C11 C12
+//@   requires nonnil: c != nil
+//@   modifies c.username, c.permissions
+//@   ensures spec: c.username == username && same(c.permissions, perms)
+//@ func (*webClient).write
+//@   safe
+//@   props C11 C12 C15
+//@   requires nonnil: c != nil
+//@   modifies nothing
+//@ func (*webClient).error
+//@   safe
+//@   props C11 C12
+//@   requires nonnil: c != nil
+//@   modifies nothing
+//@ func errorMessage
+//@   safe
+//@   props C12
+//@   modifies nothing
+//@ func (*webClient).action
+//@   props C11
+//@   requires nonnil: c != nil && c.actions != nil && !held(c.actions.mu)
+//@   modifies c.actions.queue, full(c.actions.queue), held(c.actions.mu)
